@@ -1,1 +1,31 @@
-From Verif Require Import Shapes.Eval.
+(* C12 - abort_on_first changes how much is reported, never what is decided. *)
+From Coq Require Import List NArith Bool.
+From Verif Require Import Base.SetList Base.Terms Base.Vocab Paths.Path Shapes.AST Shapes.Leaf Shapes.Eval
+  Shapes.EvalProofs Shapes.AbortProofs.
+Import ListNotations.
+
+(* For every environment (recursive or not), data graph, order of shapes and constraints and
+   every severity-waiver setting: whenever the complete run gives a report (c, rs), the run with
+   abort_on_first gives (c, rs') - the same verdict - where rs' is a sub-list of rs whose
+   results may carry fewer nested details, and a non-conforming verdict has a result. *)
+Theorem C12_abort : forall trig o, abort o = false -> forall sg g E c rs,
+  validate trig o sg g E = Ok (c, rs) ->
+  exists rs', validate trig (with_abort o) sg g E = Ok (c, rs') /\ le_list rs' rs /\ (c = false -> rs' <> []).
+Proof. exact validate_abort. Qed.
+Print Assumptions C12_abort.
+
+(* the RuntimeError "A Non-Conformant Validation Report must have at least one result" is unreachable *)
+Theorem C12_nonempty : forall trig o sg g E rs, validate trig o sg g E = Ok (false, rs) -> rs <> [].
+Proof. exact nonconforming_has_result. Qed.
+Print Assumptions C12_nonempty.
+
+(* Non-vacuity: two failing constraints; the aborted run keeps the first result only. *)
+Definition S : shape := {| sid := IRI 100; spath := None; deact := false; ssev := t_Violation;
+   stargets := {| t_nodes := [IRI 7]; t_classes := []; t_implicit := false; t_subjects_of := []; t_objects_of := [] |};
+   scomps := [CLeaf (LIn []); CLeaf (LHasValue [IRI 8])] |}.
+Definition ofull := {| abort := false; allow_infos := false; allow_warnings := false; max_depth := 15; focus_filter := [] |}.
+Example C12_nonvacuous :
+  validate_impl ofull [] [] [S] = Ok (false, [VR (IRI 7) (Some (IRI 7)) sh_InConstraintComponent (IRI 100) t_Violation [];
+                                              VR (IRI 7) None sh_HasValueConstraintComponent (IRI 100) t_Violation []])
+  /\ validate_impl (with_abort ofull) [] [] [S] = Ok (false, [VR (IRI 7) (Some (IRI 7)) sh_InConstraintComponent (IRI 100) t_Violation []]).
+Proof. vm_compute. split; reflexivity. Qed.
